@@ -1012,6 +1012,15 @@ def classify(v, case):
             # approximation (a subchannel next to its own regime boundary)
             # escapes as StopIteration
             return 'F127'
+        if (exc == 'StopIteration' and k.get('grid') in ('corr', 'loss_coeff')
+                and k.get('fs_ct') is True and k.get('kink_band') is False
+                and k.get('regime') == 'transition'
+                and site == 'flowsplit_ctd.py:_iterate'):
+            # the same missing fallback, reached away from the band: the
+            # successive approximation with a grid term also fails to
+            # converge in the middle of the transition regime for bundles
+            # far outside the correlation's range
+            return 'F130'
         return None
     if mon == 'FF_positive_finite':
         if (k.get('ff') == 'NOV' and k.get('value') == 'nan'
